@@ -8,7 +8,7 @@ from . import C13
 
 META = {
     "level": "other",
-    "explanation": "Ownership, translation and error-discipline check of every stream access and every foreign raiser on the parse side: (R1) every raw call of read/write/seek/tell/close on a stream that came in from outside (or wraps one) is *translated*: it sits inside a try whose handler is total (`except Exception`) and raises StreamError(path) -- today that is the seven stream_* helpers; stream wrapper classes (their methods are only reached through the helpers), debug.py, Pickled and Numpy are outside the property's fragment; (R2) stream_read rejects negative lengths before reading and short data after, stream_write rejects non-bytes, negative length, length mismatch and short writes, and every helper translates; together with R1 this makes 'no value from fewer bytes than required' a per-site fact; (R3) in every parse-side method (_parse, _decode, _actualsize and their closures) every call that can raise a non-ConstructError -- package helpers whose own summary shows an escaping `raise ValueError`, struct.pack/unpack, bytes.decode/str.encode -- is covered by a handler that catches that class and raises a ConstructError subclass; opaque external calls are allowed only in the frozen list of callback/codec carriers; (R4) handlers that can swallow ExplicitError re-raise it first (shared with C13.R5); (R5) no recovery handler reads a local that is unbound on the exceptional edge entering it.",
+    "explanation": "Ownership, translation and error-discipline check of every stream access and every foreign raiser on the parse side: (R1) every raw call of read/write/seek/tell/close on a stream that came in from outside (or wraps one) is *translated*: it sits inside a try whose handler is total (`except Exception`) and raises StreamError(path) -- today that is the seven stream_* helpers; stream wrapper classes (their methods are only reached through the helpers), debug.py, Pickled and Numpy are outside the property's fragment; (R2) stream_read rejects negative lengths before reading and short data after, stream_write rejects non-bytes, negative length, length mismatch and short writes, and every helper translates; together with R1 this makes 'no value from fewer bytes than required' a per-site fact; (R3) in every parse-side method (_parse, _decode, _actualsize and their closures) every call that can raise a non-ConstructError -- package helpers whose own summary shows an escaping `raise ValueError`, struct.pack/unpack, bytes.decode/str.encode -- is covered by a handler that catches that class and raises a ConstructError subclass; opaque external calls are allowed only in the frozen list of callback/codec carriers; (R4) handlers that can swallow ExplicitError re-raise it first (shared with C13.R5); (R5) no recovery handler reads a local that is unbound on the exceptional edge entering it. (R7) every division or modulo whose divisor is computed at parse time from the context or the data is preceded on its path by a guard excluding zero (no ZeroDivisionError escapes); R2 also carries the code-unit table (a terminator narrower than the unit accepts strict prefixes).",
     "undecided": "Termination (e.g. GreedyRange over a zero-width element never ends -- a progress argument over arbitrary sub-constructs is out of reach; not decided, not a finding); TypeErrors from ill-typed context values; the k-th-operation fault model is covered only through R1+R2 (every operation is one of seven guarded sites).",
     "trusted_base": ["python ast (3.12)", "sa.summ summariser", "table of external raisers (struct, codecs, int.to_bytes) taken from the stdlib documentation"],
     "assumptions": ["user callbacks and third-party codecs are outside the property", "sub-constructs honour the same contract (induction over nesting)"],
